@@ -1,10 +1,62 @@
-//! C01 — stub: property not yet claimed.
+//! C01 — message streams survive encode/decode unchanged under any chunking.
 use crate::common::*;
+use crate::framing::*;
 
-pub fn generate(_tier: &str, _rng: &mut Rng) -> Vec<String> {
-    Vec::new()
+pub fn generate(tier: &str, rng: &mut Rng) -> Vec<String> {
+    let thorough = tier == "thorough";
+    let mut out = Vec::new();
+    // corpus: 3-message gzip stream cut inside the second prefix; empty messages; yield threshold edge
+    out.push(
+        EncCase { server: true, comp: Some(tonic::codec::CompressionEncoding::Gzip), disable: false, yield_thr: 0, buf_size: 8192, max: None,
+                  evs: vec!["i010203".into(), "p".into(), "i".into(), "i09".into()], items: vec![vec![1, 2, 3], vec![], vec![9]], extra_polls: 1 }.line(),
+    );
+    out.push("dec req none none 8192 8 Z 0 EV d000000 d0003010203 p d00 d00000000 d000000000109".to_string());
+    let n = if thorough { 30000 } else { 2500 };
+    for _ in 0..n {
+        out.push(gen_enc_case(rng, false, false).line());
+    }
+    for _ in 0..n {
+        let mut c = gen_dec_valid(rng, false);
+        // clean end: request direction, or 200 with OK/absent grpc-status
+        if !(c.dir == "req" || c.dir == "resp200" || c.dir == "empty") {
+            c.dir = "resp200".into();
+        }
+        if let Some(last) = c.evs.last_mut() {
+            if last.starts_with('t') && last != "t0" && last != "tnone" {
+                *last = "t0".into();
+            }
+        }
+        if c.dir == "empty" {
+            // Streaming::new_empty has no encoding: only identity frames make a valid stream
+            c.dir = "req".into();
+        }
+        out.push(c.line());
+    }
+    if thorough {
+        // small-scope exhaustive: every chunking (all 2^(n-1) cut sets) of short streams
+        for msgs in [vec![vec![]], vec![vec![7u8]], vec![vec![1u8, 2], vec![]], vec![vec![], vec![5u8, 6, 7]]] {
+            let mut bytes = Vec::new();
+            for m in &msgs {
+                bytes.extend(frame(0, m));
+            }
+            let n = bytes.len();
+            for mask in 0u32..(1 << (n - 1)) {
+                let mut evs = Vec::new();
+                let mut prev = 0;
+                for i in 1..n {
+                    if mask & (1 << (i - 1)) != 0 {
+                        evs.push(format!("d{}", &hex(&bytes[prev..i])[1..]));
+                        prev = i;
+                    }
+                }
+                evs.push(format!("d{}", &hex(&bytes[prev..])[1..]));
+                out.push(DecCase { dir: "req".into(), enc: None, max: None, buf_size: 16, evs, stream: bytes.clone(), extra_polls: 1 }.line());
+            }
+        }
+    }
+    out
 }
 
-pub fn execute(_case: &str) -> String {
-    "unclaimed".into()
+pub fn execute(case: &str) -> String {
+    crate::framing::execute(case)
 }
